@@ -310,6 +310,42 @@ func init() {
 				mk(2, 2, l, "unlock")
 			}
 		}
+		c.Phase("hostile-scripts") // scripts a decoder has to survive, as output script and as unlocking script (the node dialect renders scripts as text and classifies them): length claims on the edge of the integer types behind data-carrier and template heads, template instances with one byte changed, inscription look-alikes shorter than a key hash script
+		{
+			n := uint64(0)
+			var scripts [][]byte
+			for _, h := range c14ExtremeClaims {
+				for _, pre := range [][]byte{nil, {0x00, 0x6a}, {0x6a}, {0x76, 0xa9}, {0x51}} {
+					scripts = append(scripts, c14Cat(pre, h), c14Cat(pre, h, []byte{0x51, 0x51}))
+				}
+			}
+			for _, hx := range []string{"76a904deadbeef88ac0063036f726451017400017868", "76a97688ac0063036f72645100000068", "76a90088ac0063036f7264510000000068", "0063036f7264510000000068", "76a914", "4c", "4d01", "4e010000", "514c00ae", "00514c0051ae"} {
+				b, _ := hex.DecodeString(hx)
+				scripts = append(scripts, b)
+			}
+			r0 := prng.New(c.Seed, "C16-hostile", 0)
+			for _, inst := range c14Instances(r0, false) {
+				if len(inst.s) <= 120 {
+					c14Mutate(inst.s, false, func(_ string, m []byte) { scripts = append(scripts, m) })
+				}
+			}
+			for i, sc := range scripts {
+				n++
+				if !c.Case(n) {
+					continue
+				}
+				r := c.Rand(n)
+				s := gen.Shape{Version: 1, LockTime: uint32(i)}
+				s.Ins = append(s.Ins, gen.In{TxID: r.Bytes(32), Vout: uint32(r.Intn(5)), Seq: gen.U32(r), Unlock: gen.Push(r.Bytes(3)), PrevSats: uint64(1 + r.Intn(5000)), PrevScript: []byte{}})
+				s.Outs = append(s.Outs, gen.Out{Sats: uint64(r.Intn(100000)), Script: gen.P2PKH(r.Bytes(20))})
+				if i%3 == 2 {
+					s.Ins[0].Unlock = sc
+				} else {
+					s.Outs = append(s.Outs, gen.Out{Sats: uint64(i), Script: sc})
+				}
+				txk(c, &c16Tx{Shape: s, Stage: "hostile-script"})
+			}
+		}
 		c.Phase("long-lists") // lists of 0 .. 1000 elements (every length up to 70, then around powers of two and round numbers) through Txs, Txs.NodeJSON, UTXOs, UTXOs.NodeJSON
 		{
 			var ns []int
@@ -697,6 +733,28 @@ func c16TxDialects(c *mon.Ctx, tx *bt.Tx, stage string) {
 			continue
 		}
 		c.Count(key + ":roundtrip")
+		// what came out of the decoder is a transaction like any other: it is marshalled again, in
+		// both single-transaction dialects (its scripts are the decoder's own allocations, exactly as
+		// long as their content), and reads the same
+		if d == "Tx" || d == "tx.NodeJSON" {
+			var again []byte
+			var aerr error
+			src2 := any(back)
+			if d == "tx.NodeJSON" {
+				src2 = back.NodeJSON()
+			}
+			if !c.Try("json.Marshal("+d+" of a decoded tx)", func() { again, aerr = json.Marshal(src2) }) {
+				c16Viol(c, "C16:marshal-panics:"+d+":decoded-tx", func() string {
+					return fmt.Sprintf("json.Marshal(%s) panicked for the transaction the %s decoder had just returned (stage %s); tx %x", d, d, stage, tx.Bytes())
+				})
+			} else if aerr == nil && !bytes.Equal(again, js) {
+				c16Viol(c, "C16:second-marshalling-differs:"+d, func() string {
+					return fmt.Sprintf("%s: the decoded transaction marshals to %.200s, the original to %.200s (stage %s)", d, again, js, stage)
+				})
+			} else {
+				c.Count("remarshalled-decoded-tx:" + d)
+			}
+		}
 	}
 }
 
